@@ -70,6 +70,7 @@ def model_c():
         K('S', 'B1'): fn('MAX', rng('U', 'A1:B1', C), cell('S', 'A2')),
         K('S', 'B2'): op('-', cell('S', 'B1'), ['name', B, 'BASE']),
         K('S', 'B3'): fn('MIN', rng('S', 'A1:A2'), cell('U', 'B1', C)),
+        K('S', 'B4'): op('*', ['name', B, 'BASE'], num(2)),          # depends on the name and a literal only
     }
     return {'cells': cells, 'arrays': {}, 'names': {'%s|BASE' % B: cell('U', 'A1', C)}, 'sheets': [[B, 'S'], [C, 'U']]}
 
